@@ -74,6 +74,7 @@ func runDirected(c *driver.Ctx, rng *rand.Rand, caseNo int64) {
 	a2Done := make(chan struct{})
 	a2Parked := make(chan struct{}, 4)
 	a2Ctx, a2Cancel := context.WithCancel(context.Background())
+	defer a2Cancel()
 	if twoCancelled {
 		go func() {
 			a2Err = r.exp.ConsumeLogs(hookCtx{Context: a2Ctx, onDone: func(space bool) {
